@@ -865,3 +865,14 @@ M('C09', 'c09-unset-dimensioned-value-read-in-details', 'openhtf/core/test_state
   "      message.append(f'  measured_value: {measurement.measured_value}')\n",
   "      message.append(f'  measured_value: {measurement.measured_value.value}')\n",
   'outcome details read .value of a dimensioned measurement that may never have been set')
+
+
+# ---------------------------------------------------------------- round 8
+M('C06', 'c06-dimensions-setter-drops-transform', 'openhtf/core/measurements.py',
+  "    self._dimensions = value\n    self._initialize_value()\n",
+  "    self._dimensions = value\n    fn, self._transform_fn = self._transform_fn, None\n    self._initialize_value()\n    self._transform_fn = fn\n",
+  'a transform / precision declared before the dimensions is not handed to the dimensioned value')
+M('C16', 'c16-bare-info-dropped', 'openhtf/plugs/usb/fastboot_protocol.py',
+  "      if header == 'INFO':\n        info_cb(FastbootMessage(remaining, header))\n",
+  "      if header == 'INFO':\n        if remaining:\n          info_cb(FastbootMessage(remaining, header))\n",
+  'an INFO packet without text is not forwarded to the callback')
